@@ -316,11 +316,32 @@ def eval_system(case):
                a, b, _tol_rates(route, case), "K")
 
     # ---- B: Redfield tensor, downhill population element in the eigenbasis -------
-    troutes = [("ctor", None)]
+    troutes = [("ctor", None, None)]
     if agg is not None:
-        troutes.append(("aggregate", agg))
-    for rname, ag in troutes:
-        if ag is None:
+        troutes.append(("aggregate", agg, None))
+    # operator form of the tensor (as_operators=True), turned into the tensor form by
+    # convert_2_tensor() outside of any context or inside the eigenbasis context it is read in
+    for where in (("outside", "inside") if case.get("opform", True) else ()):
+        troutes.append(("ctor-operators-converted-%s" % where, None, where))
+        if agg is not None:
+            troutes.append(("aggregate-operators-converted-%s" % where, agg, where))
+    for rname, ag, conv in troutes:
+        if conv is not None:
+            if ag is None:
+                ham.protect_basis()
+                try:
+                    with qr.eigenbasis_of(ham):
+                        RT = RedfieldRelaxationTensor(ham, sbi, as_operators=True)
+                finally:
+                    ham.unprotect_basis()
+                hh = ham
+            else:
+                RT, hh = ag.get_RelaxationTensor(ta, relaxation_theory="standard_Redfield",
+                                                 as_operators=True)
+                isolation.reset_units()
+            if conv == "outside":
+                RT.convert_2_tensor()
+        elif ag is None:
             # the library's own protocol (opensystem.get_RelaxationTensor): the tensor is
             # computed in the eigenbasis from the site-basis Hamiltonian data
             ham.protect_basis()
@@ -334,6 +355,8 @@ def eval_system(case):
             RT, hh = ag.get_RelaxationTensor(ta, relaxation_theory="standard_Redfield")
             isolation.reset_units()
         with qr.eigenbasis_of(hh):
+            if conv == "inside":
+                RT.convert_2_tensor()
             dat = numpy.array(RT.data)
             ediag = numpy.real(numpy.diag(hh.data)).copy()
         # the eigenbasis used by the context must be the ascending one of the model
@@ -615,7 +638,12 @@ def system_cases(tier):
         if tier == "quick" and c["Jpat"] == "full" and (c["axis"][0] != 1500 or c["tau"] != 50.0):
             return False                       # quick: the general coupling pattern on one grid
         return admissible(c)
-    return product(dom, ok)
+    cs = product(dom, ok)
+    if tier == "quick":
+        # quick: the operator-form tensor routes on one grid and correlation time
+        for c in cs:
+            c["opform"] = bool(c["axis"][0] == 1500 and c["tau"] == 50.0)
+    return cs
 
 
 def bath_cases(tier):
